@@ -71,7 +71,14 @@ impl<'a> G<'a> {
             let i = enums[self.rng.below(enums.len())];
             self.reference(i)
         } else {
-            json!({"type": "primitive", "primitive": KEY_PRIMS[self.rng.below(KEY_PRIMS.len())]})
+            let p = json!({"type": "primitive", "primitive": KEY_PRIMS[self.rng.below(KEY_PRIMS.len())]});
+            if self.rng.chance(1, 6) {
+                // an imported type as a key / set item / PLAIN parameter: the fallback's key form is what is generated
+                let n = self.rng.below(3);
+                json!({"type": "external", "external": {"externalReference": {"name": format!("ExtKey{}", n), "package": "java.lang"}, "fallback": p}})
+            } else {
+                p
+            }
         }
     }
     /// any type; `no_opt`: not directly an optional (Conjure forbids optional<optional<T>>)
@@ -277,9 +284,12 @@ pub fn random_ir(rng: &mut Rng, opts: &Opts) -> Value {
                 let mut used = vec![];
                 let mut args = vec![];
                 let mut path = format!("/s{}/e{}", s, e);
-                for a in 0..g.rng.below(3) {
+                let n_path = g.rng.below(3);
+                for a in 0..n_path {
                     let an = g.name(a, &mut used, opts.keywords);
-                    path.push_str(&format!("/{{{}}}", an));
+                    // a regular expression on the parameter (`{name:regex}`), mostly on the last one
+                    let regex = if g.rng.chance(1, if a + 1 == n_path { 3 } else { 8 }) { [":.+", ":.*", ":[a-z0-9]+"][g.rng.below(3)] } else { "" };
+                    path.push_str(&format!("/{{{}{}}}", an, regex));
                     let t = g.key_ty();
                     args.push(json!({"argName": an, "type": t, "paramType": {"type": "path", "path": {}}, "markers": [], "tags": []}));
                 }
